@@ -28,7 +28,7 @@ struct Img { words: Vec<(u16, u16)>, buf: u16 }
 fn img(prog: usize, n: usize) -> Img {
     static CACHE: OnceLock<std::sync::Mutex<std::collections::BTreeMap<(usize, usize), (Vec<(u16, u16)>, u16)>>> = OnceLock::new();
     let c = CACHE.get_or_init(Default::default);
-    let mut g = c.lock().unwrap();
+    let mut g = c.lock().unwrap_or_else(|e| e.into_inner());
     let e = g.entry((prog, n)).or_insert_with(|| {
         let src = PROGS[prog].replace("{N}", &n.to_string());
         let o = lc3_ensemble::asm::assemble_debug(parse_ast(&src).expect("parses"), &src).expect("assembles");
@@ -40,7 +40,8 @@ fn img(prog: usize, n: usize) -> Img {
 }
 
 /// Holder action before a step: 0 none, 1 hold keyboard, 2 hold display, 3 hold keyboard and append a byte on release, 4 hold display and drain it on release,
-/// 5 / 6: hold keyboard / display as a reader (shared guard, e.g. a front end rendering the buffer)
+/// 5 / 6: hold keyboard / display as a reader (shared guard, e.g. a front end rendering the buffer),
+/// 7 / 8: the holder of the keyboard / display lock dies while holding it just before the step (the lock is poisoned and free)
 type Sched = Vec<(u32, u8)>;
 
 struct Obs { received: Vec<u8>, output_expected: Vec<u8>, shown: Vec<u8>, sent: Vec<u8>, steps: usize, halted: bool, stale: u64, dropped: u64, unwaited: (u64, u64) }
@@ -67,17 +68,19 @@ fn run_boundary(prog: usize, init: &[u8], sched: &Sched) -> Result<Obs, (String,
     let mut halted = false; let mut steps = 0usize;
     for k in 0..HORIZON {
         let act = sched.iter().find(|s| s.0 as usize == k).map(|s| s.1).unwrap_or(0);
-        p.hold_kb = act == 1 || act == 3 || act == 5; p.hold_disp = act == 2 || act == 4 || act == 6; p.hold_read = act >= 5;
+        if act == 7 { poison_rwlock(&p.kb.get_buffer()); }
+        if act == 8 { poison_rwlock(&p.disp.get_buffer()); }
+        p.hold_kb = act == 1 || act == 3 || act == 5; p.hold_disp = act == 2 || act == 4 || act == 6; p.hold_read = act == 5 || act == 6;
         let info = step_compare(&mut p, false).map_err(|(s, d)| (s, format!("{what}: step {k}: {d}")))?;
         p.hold_kb = false; p.hold_disp = false; p.hold_read = false;
         steps += 1;
-        if act == 3 { p.kb.get_buffer().write().unwrap().push_back(next_byte); p.rf.kb_queue.push_back(next_byte); sent.push(next_byte); next_byte += 1; }
-        if act == 4 { let mut g = p.disp.get_buffer().write().unwrap(); drained.extend(g.drain(..)); p.rf.disp.clear(); }
+        if act == 3 { p.kb.get_buffer().write().unwrap_or_else(|e| e.into_inner()).push_back(next_byte); p.rf.kb_queue.push_back(next_byte); sent.push(next_byte); next_byte += 1; }
+        if act == 4 { let mut g = p.disp.get_buffer().write().unwrap_or_else(|e| e.into_inner()); drained.extend(g.drain(..)); p.rf.disp.clear(); }
         match info.outcome { Outcome::Halt => { halted = true; break; } Outcome::Err(e) => return Err(("program-faults".into(), format!("{what}: {e:?}"))), _ => {} }
     }
     let n_recv = total.min(8);
     let received: Vec<u8> = (0..n_recv).map(|i| p.sim.mem[buf + i as u16].get() as u8).collect();
-    let mut shown = drained; shown.extend(p.disp.get_buffer().read().unwrap().iter());
+    let mut shown = drained; shown.extend(p.disp.get_buffer().read().unwrap_or_else(|e| e.into_inner()).iter());
     let output_expected = expected_output(prog, &received);
     Ok(Obs { received, output_expected, shown, sent, steps, halted, stale: p.rf.stale_kbdr_reads, dropped: p.rf.dropped_ddr_writes, unwaited: (p.rf.unwaited_stale_kbdr_reads, p.rf.unwaited_dropped_ddr_writes) })
 }
@@ -137,8 +140,8 @@ fn run_attempts(prog: usize, init: &[u8], held: &[u32]) -> Result<(Obs, bool, bo
         if c.held.contains(&i) {
             // SAFETY: the guard borrows the RwLock inside an Arc that `ctl` keeps alive for longer than the guard (guards are dropped in `release` / before `ctl`).
             match dev {
-                verif::Device::Keyboard => { let g = c.kb.write().unwrap(); let g: std::sync::RwLockWriteGuard<'static, _> = unsafe { std::mem::transmute(g) }; c.gk = Some(g); c.held_kb_this_step = true; }
-                verif::Device::Display => { let g = c.disp.write().unwrap(); let g: std::sync::RwLockWriteGuard<'static, _> = unsafe { std::mem::transmute(g) }; c.gd = Some(g); c.held_disp_this_step = true; }
+                verif::Device::Keyboard => { let g = c.kb.write().unwrap_or_else(|e| e.into_inner()); let g: std::sync::RwLockWriteGuard<'static, _> = unsafe { std::mem::transmute(g) }; c.gk = Some(g); c.held_kb_this_step = true; }
+                verif::Device::Display => { let g = c.disp.write().unwrap_or_else(|e| e.into_inner()); let g: std::sync::RwLockWriteGuard<'static, _> = unsafe { std::mem::transmute(g) }; c.gd = Some(g); c.held_disp_this_step = true; }
             }
         }
     })));
@@ -162,7 +165,7 @@ fn run_attempts(prog: usize, init: &[u8], held: &[u32]) -> Result<(Obs, bool, bo
     ctl.borrow_mut().release();
     result?;
     let received: Vec<u8> = (0..total.min(8)).map(|i| p.sim.mem[buf + i as u16].get() as u8).collect();
-    let shown: Vec<u8> = p.disp.get_buffer().read().unwrap().clone();
+    let shown: Vec<u8> = p.disp.get_buffer().read().unwrap_or_else(|e| e.into_inner()).clone();
     let output_expected = expected_output(prog, &received);
     Ok((Obs { received, output_expected, shown, sent: init.to_vec(), steps, halted, stale: 0, dropped: 0, unwaited: (0, 0) }, coincided_kb, coincided_disp, attempts))
 }
@@ -203,7 +206,7 @@ fn record(acc: &mut Acc, r: Result<(usize, Vec<&'static str>), (String, String)>
 }
 
 pub fn run(ctx: &Ctx) -> Report {
-    let mut rep = Report::new("4 programs (GETC/OUT echo loop recording what it received; GETC xN then PUTS; a supervisor-mode KBSR/KBDR + DSR/DDR polling loop without the OS; OUT of 3 fixed bytes) x inputs of length 0-3; 'another thread' is played by the harness taking the real RwLock write guard: boundary mode (quick and thorough): before each step the holder is absent / holds the keyboard / holds the display / holds the keyboard and appends a byte on release / holds the display and drains it on release / holds the keyboard or the display as a reader (shared guard); every pattern with <=2 (thorough 3) acting boundaries over the run, and ALL 2^n hold patterns over the first n=14 (thorough 18) boundaries of the single-byte programs; each run in lock-step with RefLC3 (which encodes the two known findings exactly: a DDR write under a held display lock is dropped, a KBDR read under a held keyboard lock returns the stale value and consumes nothing); attempt mode (thorough, hook H3): the lock is held at individual try_write attempts, every set of <=2 attempts. Oracle: bytes received (recorded by the program, in order) = queued input exactly once; display (+ drained) = bytes output exactly once. non-trivial = schedules with at least one hold");
+    let mut rep = Report::new("4 programs (GETC/OUT echo loop recording what it received; GETC xN then PUTS; a supervisor-mode KBSR/KBDR + DSR/DDR polling loop without the OS; OUT of 3 fixed bytes) x inputs of length 0-3; 'another thread' is played by the harness taking the real RwLock write guard: boundary mode (quick and thorough): before each step the holder is absent / holds the keyboard / holds the display / holds the keyboard and appends a byte on release / holds the display and drains it on release / holds the keyboard or the display as a reader (shared guard) / the holder of the keyboard or display lock dies while holding it (poisoned lock); every pattern with <=2 (thorough 3) acting boundaries over the run, and ALL 2^n hold patterns over the first n=14 (thorough 18) boundaries of the single-byte programs; each run in lock-step with RefLC3 (which encodes the two known findings exactly: a DDR write under a held display lock is dropped, a KBDR read under a held keyboard lock returns the stale value and consumes nothing); attempt mode (thorough, hook H3): the lock is held at individual try_write attempts, every set of <=2 attempts. Oracle: bytes received (recorded by the program, in order) = queued input exactly once; display (+ drained) = bytes output exactly once. non-trivial = schedules with at least one hold");
     let progs: [usize; 4] = [0, 1, 2, 3];
     let maxk = ctx.pick(2usize, 3usize);
     for &prog in &progs { for init in inputs() {
@@ -213,14 +216,14 @@ pub fn run(ctx: &Ctx) -> Report {
         let base = match run_boundary(prog, &init, &vec![]) { Ok(o) => o, Err((s, d)) => { rep.acc.violation(s, format!("b:{prog}:{}:", hex(&init)), d); continue; } };
         if !init.is_empty() || prog == 3 { if let Err((s, d)) = judge(prog, &base, "no contention", false, false) { rep.acc.violation(s, format!("b:{prog}:{}:", hex(&init)), d); } }
         let nb = (base.steps as u64).min(ctx.pick(90, 140));
-        let slots = nb * 6;
+        let slots = nb * 8;
         for k in 1..=maxk {
             if k == 3 && nb > 60 { continue; }
             let total = slots.pow(k as u32);
             let init2 = init.clone();
             let r = sweep(ctx, total, 64, |i, acc| {
                 let Some(sel) = k_subsets(slots, k, i) else { return };
-                let sched: Sched = sel.iter().map(|s| ((s / 6) as u32, (s % 6) as u8 + 1)).collect();
+                let sched: Sched = sel.iter().map(|s| ((s / 8) as u32, (s % 8) as u8 + 1)).collect();
                 if sched.windows(2).any(|w| w[0].0 == w[1].0) { return; } // one action per boundary
                 if init2.is_empty() && prog != 3 && !sched.iter().any(|s| s.1 == 3) { return; } // no input at all: the program would wait forever by contract
                 acc.evals += 1; acc.traces += 1; acc.nontrivial += 1; acc.count(&format!("boundary_schedules_k{k}"), 1);
